@@ -18,6 +18,6 @@ fn version_negotiation_size_gate(payload_len: usize) -> (ret: Result<(), Error>)
         payload_len < 1200 ==> ret is Err,
         payload_len >= 1200 ==> ret is Ok,
 {
-//@ splice-item quic/s2n-quic-transport/src/endpoint/version.rs "if payload_len"
+//@ splice-item quic/s2n-quic-transport/src/endpoint/version.rs "if payload_len" autoconst=1
     Ok(())
 }
